@@ -1,5 +1,5 @@
 use super::{Node, RustFieldType};
-use crate::{error::WriterResult, reader::WriteXml};
+use crate::{error::WriterResult, model::rust_str, reader::WriteXml};
 use std::io;
 
 #[derive(Debug, PartialEq, Default)]
@@ -55,7 +55,7 @@ where
         if let Some(enumeration) = &self.enumeration {
             writeln!(writer, "   enumeration: Some(vec![")?;
             for value in enumeration {
-                writeln!(writer, "      \"{value}\".to_string(),")?;
+                writeln!(writer, "      \"{}\".to_string(),", rust_str(value))?;
             }
             writeln!(writer, "   ]),")?;
         }
